@@ -214,7 +214,11 @@ def rule_c(model, rep):
             defaults.add(model.fold(unit, n.value))
     rep.check(defaults and all(isinstance(d, str) and d and d[0] in chars for d in defaults), R, site(M, U + ".default_marker"), str(sorted(defaults)), "every platform default marker starts with an accepted marker character")
     fn = model.func(M, U + ".using")
-    rep.check(has_if(fn, "not cls.identify(marker)"), R, site(M, U + ".using"), "marker validated through identify()", "a custom marker must itself be recognised as disabled",
+    mv = [n for n in walk_no_nested(fn) if isinstance(n, ast.If) and "cls.identify(marker)" in ast.unparse(n.test) and n.body and isinstance(n.body[-1], ast.Raise)]
+    rep.check(bool(mv) and ast.unparse(mv[0].test) in ("not marker or not cls.identify(marker)", "not (marker and cls.identify(marker))"), R, site(M, U + ".using") + " empty marker",
+              ast.unparse(mv[0].test) if mv else "<none>", "identify('') is True (an empty field is a disabled account), so the marker check must refuse the empty string itself",
+              witness="unix_disabled.using(marker='') is accepted; hash()/disable() then fail on `assert marker` (and return '' under python -O: an empty shadow field, i.e. no password required)")
+    rep.check(bool(mv), R, site(M, U + ".using"), "marker validated through identify()", "a custom marker must itself be recognised as disabled",
               witness="using(marker='x') produces 'disabled' strings that the context treats as unknown hashes")
     fn = model.func(M, U + ".hash")
     t = qtext(fn)
